@@ -189,3 +189,11 @@ def paths_of(fn_node, params=(), consts=None):
     dom = PathDomain(params, consts)
     exits = Flow(dom).run(body, {PathDomain.init()})
     return [Path(e.kind, e.state) for e in exits if e.kind in ('return', 'fall')]
+
+
+def paths_of_block(stmts, params=(), consts=None):
+    """Path summaries of one iteration of a loop body (or any statement list) in isolation:
+    -> (ends, breaks, exits)  lists of Path: iterations that end normally or by `continue`, by `break`, and return / raise exits."""
+    dom = PathDomain(params, consts)
+    ends, brks, exits = Flow(dom).run_loop_body(list(stmts), {PathDomain.init()})
+    return ([Path('end', s) for s in ends], [Path('break', s) for s in brks], [Path(e.kind, e.state) for e in exits])
